@@ -92,6 +92,50 @@ theorem C12_created_timer (status : Status) (run : Rec) (sec : Int) (st : OpSt) 
       st.sys.timers ++ [{ id := st.sys.timerN + 1, fid := run.fid, runId := run.runId, status := status, expireAt := st.sys.now + sec }] := by
   simp [inserterOutcome, Engine.call, hc, Sys.timerCreate]
 
+/-- the updater never touches the timers -/
+theorem updater_timers (cfg : Cfg) (current next : Status) (run : Rec) (o : Obj) (env : Env) (st : OpSt) :
+    (updater cfg current next run o env st).2.sys.timers = st.sys.timers := by
+  unfold updater
+  rw [bind_run]
+  simp only [Engine.getSys]
+  rw [bind_run]
+  rcases hl : lookup run.runId env st with ⟨v, st'⟩
+  cases v with
+  | error a => exact congrArg Sys.timers (lookup_err hl).1
+  | ok v =>
+    obtain ⟨_, hsys, _⟩ := lookup_ok hl
+    cases v with
+    | none => exact congrArg Sys.timers hsys
+    | some latest =>
+      simp only []
+      split
+      · exact congrArg Sys.timers hsys
+      · split
+        · exact congrArg Sys.timers hsys
+        · unfold updateRecord
+          rcases (store_run_any cfg _ env st').1 with h | h
+          · rw [h, hsys]
+          · rw [h, hsys]; rfl
+
+/-- A TIMER IS MARKED COMPLETED ONLY AFTER ITS TRANSITION WAS PERSISTED: in the tail of `processTimeout` (updater, then
+Complete), if the updater fails — validation, lookup or the store itself, any fault plan — the timers are exactly what
+they were (the timer stays due and the timeout is retried on a later poll), and the failure is returned. -/
+theorem C12_complete_only_after_update (cfg : Cfg) (t : Timer) (next : Status) (run mem : Rec) (o : Obj) (env : Env) (st : OpSt) (a : Abort)
+    (h : (updater cfg t.status next run o env st).1 = .error a) :
+    let r := ((do updater cfg t.status next run o
+                  call s!"tcomplete({t.id})" (fun s => ("", .ok (), s.timerComplete t.id))
+                  pure mem : M Rec) env st)
+    r.2.sys.timers = st.sys.timers ∧ r.1 = .error a := by
+  intro r
+  have ht := updater_timers cfg t.status next run o env st
+  simp only [r]
+  rw [bind_run]
+  rcases hu : updater cfg t.status next run o env st with ⟨x, st'⟩
+  rw [hu] at h ht
+  simp only [] at h
+  subst h
+  exact ⟨ht, rfl⟩
+
 theorem C12_tie_order : Tie.pollTimeouts = true ∧ Tie.processTimeout = true ∧ Tie.inserter = true := by decide +kernel
 
 /-- non-vacuity: timer created on arrival (+60 s), not listed at 59 s, fires at 60 s for its own run, completed afterwards -/
